@@ -62,10 +62,16 @@ def core_str(r) -> str:
     return f"{pre}{q}{body}{q}"
 
 
-def core_atom(r, d: int) -> str:
+def core_atom(r, d: int, hint: str = "any") -> str:
     k = r.random()
     if d <= 0 or k < 0.45:
         j = r.random()
+        if hint == "num" and j < 0.9:
+            return r.choice(INT_NAMES + BOOL_NAMES) if j < 0.55 else core_int(r)
+        if hint == "seq" and j < 0.9:
+            return r.choice(TUP_NAMES + STR_NAMES + ["l"])
+        if hint == "fn" and j < 0.9:
+            return r.choice(["f", "f", "g", "h", "len"])
         if j < 0.55:
             return r.choice(ALL_NAMES if r.random() < 0.85 else INT_NAMES)
         if j < 0.8:
@@ -74,7 +80,7 @@ def core_atom(r, d: int) -> str:
             return core_str(r)
         return r.choice(["True", "False", "None", "None", "..."])
     if k < 0.65:
-        return f"({_sp(r)}{core_expr(r, d - 1)}{_sp(r)})"
+        return f"({_sp(r)}{core_expr(r, d - 1, hint)}{_sp(r)})"
     if k < 0.82:
         n = r.choice([0, 2, 2, 3])
         if n == 0:
@@ -95,7 +101,7 @@ def core_args(r, d: int) -> str:
         if k < 0.5:
             pos.append(core_expr(r, d - 1))
         elif k < 0.65:
-            pos.append("*" + core_expr(r, d - 1))
+            pos.append("*" + (core_expr(r, d - 1) if r.random() < 0.3 else r.choice(TUP_NAMES + ["s", "l", "n"])))
         elif k < 0.92:
             name = r.choice(["k", "j", "key", "sep", "x"])
             if name in used:
@@ -110,7 +116,6 @@ def core_args(r, d: int) -> str:
         if kw.startswith("**"):
             out.append(kw)
         else:
-            # before the first ** entry
             idx = next((i for i, o in enumerate(out) if o.startswith("**")), len(out))
             out.insert(idx, kw)
     if kws and r.random() < 0.3:
@@ -122,21 +127,23 @@ def core_args(r, d: int) -> str:
 
 def core_slice(r, d: int) -> str:
     if r.random() < 0.5:
-        return core_expr(r, d - 1)
-    lo = core_expr(r, d - 1) if r.random() < 0.6 else ""
-    hi = core_expr(r, d - 1) if r.random() < 0.6 else ""
+        return core_expr(r, d - 1, "num")
+    lo = core_expr(r, d - 1, "num") if r.random() < 0.6 else ""
+    hi = core_expr(r, d - 1, "num") if r.random() < 0.6 else ""
     if r.random() < 0.4:
-        st = core_expr(r, d - 1) if r.random() < 0.7 else ""
+        st = (core_expr(r, d - 1, "num") if r.random() < 0.5 else r.choice(["1", "2", "-1", "-2", "0"])) if r.random() < 0.7 else ""
         return f"{lo}:{hi}:{st}"
     return f"{lo}:{hi}"
 
 
-def core_primary(r, d: int) -> str:
-    p = core_atom(r, d)
+def core_primary(r, d: int, hint: str = "any") -> str:
+    n_suffix = r.choice([0, 0, 0, 1, 1, 2]) if d > 0 else 0
+    kinds = [r.random() for _ in range(n_suffix)]
+    first = "any" if not kinds else ("num" if kinds[0] < 0.25 else "fn" if kinds[0] < 0.6 else "seq")
+    p = core_atom(r, d, first if kinds and r.random() < 0.8 else hint)
     if p[:1].isdigit() and r.random() < 0.1:
         p = f"({p})"
-    for _ in range(r.choice([0, 0, 0, 1, 1, 2]) if d > 0 else 0):
-        k = r.random()
+    for k in kinds:
         if k < 0.25:
             if p[-1:].isdigit() or p[:1].isdigit():
                 p = f"({p})"
@@ -144,7 +151,7 @@ def core_primary(r, d: int) -> str:
         elif k < 0.6:
             p = f"{p}({core_args(r, d)})"
         else:
-            n = r.choice([1, 1, 1, 2])
+            n = r.choice([1, 1, 1, 1, 2])
             ss = ", ".join(core_slice(r, d) for _ in range(n))
             if r.random() < 0.12:
                 ss += ","
@@ -152,83 +159,92 @@ def core_primary(r, d: int) -> str:
     return p
 
 
-def core_power(r, d: int) -> str:
-    b = core_primary(r, d)
+def core_power(r, d: int, hint: str = "any") -> str:
     if d > 0 and r.random() < 0.2:
+        b = core_primary(r, d, "num")
         if r.random() < 0.06:
             b = "await " + b
-        return f"{b}{_op(r, '**')}{core_factor(r, d - 1)}"
-    return b
+        e = core_factor(r, d - 1, "num") if r.random() < 0.5 else r.choice(["2", "3", "0", "-1", "b", "p"])
+        return f"{b}{_op(r, '**')}{e}"
+    return core_primary(r, d, hint)
 
 
-def core_factor(r, d: int) -> str:
+def core_factor(r, d: int, hint: str = "any") -> str:
     if d > 0 and r.random() < 0.2:
-        return r.choice(["-", "+", "~", "- ", "-"]) + core_factor(r, d - 1)
-    return core_power(r, d)
+        return r.choice(["-", "+", "~", "- ", "-"]) + core_factor(r, d - 1, "num" if r.random() < 0.85 else hint)
+    return core_power(r, d, hint)
 
 
-def _left(r, d: int, self_fn, next_fn, ops: list[str], p: float) -> str:
+def _left(r, d: int, self_fn, next_fn, ops: list[str], p: float, hint: str) -> str:
     if d > 0 and r.random() < p:
-        return f"{self_fn(r, d - 1)}{_op(r, r.choice(ops))}{next_fn(r, d - 1)}"
-    return next_fn(r, d)
+        h = "num" if r.random() < 0.85 else "any"
+        return f"{self_fn(r, d - 1, h)}{_op(r, r.choice(ops))}{next_fn(r, d - 1, h)}"
+    return next_fn(r, d, hint)
 
 
-def core_term(r, d: int) -> str:
-    return _left(r, d, core_term, core_factor, ["*", "/", "//", "%", "@", "*", "//", "%"], 0.25)
+def core_term(r, d: int, hint: str = "any") -> str:
+    return _left(r, d, core_term, core_factor, ["*", "/", "//", "%", "@", "*", "//", "%"], 0.25, hint)
 
 
-def core_sum(r, d: int) -> str:
-    return _left(r, d, core_sum, core_term, ["+", "-"], 0.3)
+def core_sum(r, d: int, hint: str = "any") -> str:
+    return _left(r, d, core_sum, core_term, ["+", "-"], 0.3, hint)
 
 
-def core_shift(r, d: int) -> str:
-    return _left(r, d, core_shift, core_sum, ["<<", ">>"], 0.1)
+def core_shift(r, d: int, hint: str = "any") -> str:
+    return _left(r, d, core_shift, core_sum, ["<<", ">>"], 0.1, hint)
 
 
-def core_band(r, d: int) -> str:
-    return _left(r, d, core_band, core_shift, ["&"], 0.1)
+def core_band(r, d: int, hint: str = "any") -> str:
+    return _left(r, d, core_band, core_shift, ["&"], 0.1, hint)
 
 
-def core_bxor(r, d: int) -> str:
-    return _left(r, d, core_bxor, core_band, ["^"], 0.1)
+def core_bxor(r, d: int, hint: str = "any") -> str:
+    return _left(r, d, core_bxor, core_band, ["^"], 0.1, hint)
 
 
-def core_bor(r, d: int) -> str:
-    return _left(r, d, core_bor, core_bxor, ["|"], 0.1)
+def core_bor(r, d: int, hint: str = "any") -> str:
+    return _left(r, d, core_bor, core_bxor, ["|"], 0.1, hint)
 
 
-def core_comparison(r, d: int) -> str:
-    s = core_bor(r, d)
+def core_comparison(r, d: int, hint: str = "any") -> str:
     if d > 0:
-        for _ in range(r.choice([0, 0, 0, 1, 1, 2, 3])):
-            op = r.choice(CMP_OPS[:-1])
-            rhs = core_bor(r, d - 1)
-            if op in ("is", "is not") and r.random() < 0.7:
-                rhs = r.choice(["None", "True", "False", "..."])
-            s += f"{_op(r, op)}{rhs}"
-    return s
+        n = r.choice([0, 0, 0, 1, 1, 2, 3])
+        if n:
+            h = r.choice(["num", "num", "num", "any", "seq"])
+            s = core_bor(r, d - 1, h)
+            for _ in range(n):
+                op = r.choice(CMP_OPS[:-1])
+                if op in ("is", "is not") and r.random() < 0.7:
+                    rhs = r.choice(["None", "True", "False", "..."])
+                elif op in ("in", "not in") and r.random() < 0.8:
+                    rhs = core_bor(r, d - 1, "seq")
+                else:
+                    rhs = core_bor(r, d - 1, h)
+                s += f"{_op(r, op)}{rhs}"
+            return s
+    return core_bor(r, d, hint)
 
 
-def core_inversion(r, d: int) -> str:
+def core_inversion(r, d: int, hint: str = "any") -> str:
     if d > 0 and r.random() < 0.12:
         return "not " + core_inversion(r, d - 1)
-    return core_comparison(r, d)
+    return core_comparison(r, d, hint)
 
 
-def core_conjunction(r, d: int) -> str:
+def core_conjunction(r, d: int, hint: str = "any") -> str:
     n = r.choice([1, 1, 1, 1, 2, 3]) if d > 0 else 1
-    return " and ".join(core_inversion(r, d - (1 if n > 1 else 0)) for _ in range(n))
+    return " and ".join(core_inversion(r, d - (1 if n > 1 else 0), hint) for _ in range(n))
 
 
-def core_disjunction(r, d: int) -> str:
+def core_disjunction(r, d: int, hint: str = "any") -> str:
     n = r.choice([1, 1, 1, 1, 2, 3]) if d > 0 else 1
-    return " or ".join(core_conjunction(r, d - (1 if n > 1 else 0)) for _ in range(n))
+    return " or ".join(core_conjunction(r, d - (1 if n > 1 else 0), hint) for _ in range(n))
 
 
-def core_expr(r, d: int = 4) -> str:
+def core_expr(r, d: int = 4, hint: str = "any") -> str:
     if d > 0 and r.random() < 0.12:
-        return f"{core_disjunction(r, d - 1)} if {core_disjunction(r, d - 1)} else {core_expr(r, d - 1)}"
-    return core_disjunction(r, d)
+        return f"{core_disjunction(r, d - 1, hint)} if {core_disjunction(r, d - 1)} else {core_expr(r, d - 1, hint)}"
+    return core_disjunction(r, d, hint)
 
 
 def core_env(r) -> dict:
@@ -286,16 +302,14 @@ class Prog:
         if k < 0.35:
             self.f("int")
             return str(v)
-        if k < 0.45:
-            self.f("int_underscore")
-            s = str(r.choice([1000, 10000, 1234567]))
-            return s[0] + "_" + s[1:] if len(s) < 5 else s[:-3] + "_" + s[-3:]
+        # (digit-group underscores are exercised by the fixed probes only: the lexer splits such literals and
+        #  the way the rest of a random program then re-parses would give the one defect many signatures)
         if k < 0.55:
             self.f("int_base")
-            return r.choice([hex(v), oct(v), bin(v), "0XFF", "0o17", "0B101", "0x_ff", "0b1_0"])
+            return r.choice([hex(v), oct(v), bin(v), "0XFF", "0o17", "0B101"])
         if k < 0.75:
             self.f("float")
-            return r.choice(["1.5", "0.5", ".5", "5.", "1e3", "1E-3", "1.5e+10", "1_0.0_1", "0.0", "1e0"])
+            return r.choice(["1.5", "0.5", ".5", "5.", "1e3", "1E-3", "1.5e+10", "0.0", "1e0"])
         if k < 0.85:
             self.f("complex")
             return r.choice(["2j", "1.5J", "0j", "1e3j", ".5j"])
@@ -412,10 +426,13 @@ class Prog:
         self.f("walrus")
         return "(" + self.ident() + " := " + self.expr(d - 1) + ")"
 
+    def starred_operand(self, d: int, bor: bool = False) -> str:
+        return self.bor(d) if bor else self.expr(d)
+
     def star_named(self, d: int) -> str:
         if self.r.random() < 0.12:
             self.f("star_in_display")
-            return "*" + self.bor(d)
+            return "*" + self.starred_operand(d, True)
         return self.expr(d)
 
     def comp_for(self, d: int) -> str:
@@ -459,7 +476,7 @@ class Prog:
                 pos.append(self.expr(d))
             elif k < 0.62:
                 self.f("star_arg")
-                pos.append("*" + self.expr(d))
+                pos.append("*" + self.starred_operand(d))
             elif k < 0.9:
                 nm = r.choice(["key", "sep", "end", "k", "default"])
                 if nm in used:
@@ -504,7 +521,8 @@ class Prog:
             elif k < 0.65:
                 p += "(" + self.args(d - 1) + ")"
                 self.f("call")
-            else:
+            elif not p.rstrip(") ").endswith("\x01"):
+                # (`<a>[0]` directly after a selector is the spec language's item selection, not a subscript)
                 p += "[" + self.slices(d - 1) + "]"
                 self.f("subscript")
         return p
@@ -601,7 +619,7 @@ class Prog:
             self.f("bare_tuple_trailing")
             return self.expr(d - 1) + ","
         self.f("bare_star")
-        return "*" + self.bor(d - 1) + ", " + self.expr(d - 1)
+        return "*" + self.starred_operand(d - 1, True) + ", " + self.expr(d - 1)
 
     # ---- parameters
     def params(self, d: int, annotations: bool = True) -> str:
